@@ -76,8 +76,17 @@ impl fmt::Display for MockError {
     }
 }
 impl std::error::Error for MockError {}
+thread_local! {
+    /// When set, `de::Error::custom` drops the message instead of rendering it (no allocation by
+    /// the mock format itself: C18 measures the library's own error paths).
+    pub static QUIET_ERRORS: std::cell::Cell<bool> = const { std::cell::Cell::new(false) };
+}
+
 impl de::Error for MockError {
     fn custom<T: fmt::Display>(msg: T) -> Self {
+        if QUIET_ERRORS.with(|q| q.get()) {
+            return MockError(String::new());
+        }
         MockError(msg.to_string())
     }
 }
